@@ -97,7 +97,6 @@ func main() {
 		"non-trivial = the process ran to completion and its exit status, output bytes and file-system effects were compared with the oracle; distinct by the full argument/plumbing/fault description"
 	r.Assumptions = []string{
 		"the monitor runs as root: permission-based failures (read-only directory) cannot be produced and are not in the matrix",
-		"TTY-to-TTY output buffering failures are not exercised",
 		"a pipe reader that closes early is only asserted on when the expected output exceeds what the pipe can absorb",
 		"passphrase encryption uses the default work factor (about 1 s), so only a few such runs are made",
 	}
@@ -126,6 +125,7 @@ func main() {
 	cases = append(cases, sameFile(e)...)
 	cases = append(cases, keygenCases(e)...)
 	cases = append(cases, ptyCases(e)...)
+	cases = append(cases, terminalEnvironments(e)...)
 	r.Set("planned_process_runs_lower_bound", len(cases))
 	mon.ParN(12, len(cases), func(i int) { r.Guard(fmt.Sprintf("case#%d", i), cases[i]) })
 	r.Finish()
